@@ -22,6 +22,8 @@ LOCATIONS = ["http://192.168.1.10:80/desc.xml", "http://[fe80::2]:8080/d.xml", "
              "HTTP://192.168.1.5/desc.xml", "http://192.168.1.5/desc.xml?", "http://10.0.0.1/d#", "http://[2001:db8::1]:80/x?",
              "Http://[2001:DB8::1]/A", "http://10.0.0.1/a\tb", "http://10.0.0.1", "http://h.example:/p", "http://10.0.0.1/p;x?#"]
 LOCAL = ["192.168.1.2", 1900]
+# the receiving socket's address: what a datagram decodes to must not depend on it (beyond the _local_addr object itself)
+LOCALS = [LOCAL, ["fe80::1", 1900, 0, 3], ["2001:db8::1", 1900, 0, 0], ["fe80::7", 1900, 0, 12]]
 
 
 def url_info(u: str):
@@ -189,7 +191,7 @@ class Plugin:
                                                                        ["del", rng.choice(["location", "usn", "_udn", "nt", "_timestamp"])],
                                                                        ["clear"], ["replace", [["only", "this"]]]])])
             else:
-                steps.append(["dec", rng.randrange(nd), rng.choice(ADDRS), rng.randint(0, 5)])
+                steps.append(["dec", rng.randrange(nd), rng.choice(ADDRS), rng.randint(0, 5)] + ([rng.randrange(len(LOCALS))] if rng.random() < 0.5 else []))
                 n_dec += 1
         return {"dgrams": dgrams, "steps": steps}
 
@@ -242,7 +244,8 @@ class Plugin:
                     except KeyError:
                         pass
                     continue
-                _, di, a, t = st
+                _, di, a, t = st[:4]
+                local = tuple(LOCALS[st[4]]) if len(st) > 4 else tuple(LOCAL)
                 data = datas[di]
                 remote_tok = tokens.setdefault(tuple(a), 1000 + len(tokens))
                 if data is None or not ssdp.is_valid_ssdp_packet(data):
@@ -251,7 +254,7 @@ class Plugin:
                     continue
                 H.Clock.now_value = H.BASE + dt.timedelta(seconds=t)
                 try:
-                    rl, headers = ssdp.decode_ssdp_packet(data, tuple(LOCAL), tuple(a))
+                    rl, headers = ssdp.decode_ssdp_packet(data, local, tuple(a))
                 except InvalidHeader:
                     results.append(None); obs.append({"k": "err", "e": "EInvalidHeader", "remote": remote_tok}); continue
                 except LineTooLong:
@@ -264,7 +267,7 @@ class Plugin:
                     if k == "_remote_addr":
                         v = ("tok", remote_tok if tuple(v) == tuple(a) else 1)
                     elif k == "_local_addr":
-                        v = ("tok", 999 if v == tuple(LOCAL) else 2)
+                        v = ("tok", 999 if v == local else 2)
                     elif k == "_port":
                         v = ("tok", v)
                     items.append([k, v])
@@ -294,7 +297,7 @@ class Plugin:
             if st[0] != "dec":
                 continue
             o = next(it)
-            _, di, a, t = st
+            _, di, a, t = st[:4]
             steps.append(f"{{| ds_dgram := {di}%nat; ds_local := 999%N; ds_addr := {addr_coq(tok, a)}; ds_remote := {o['remote']}%N; "
                          f"ds_now := {H.c_time(H.us(H.BASE + dt.timedelta(seconds=t)))} |}}")
             if o["k"] == "invalid":
